@@ -38,6 +38,7 @@ type delit struct {
 	n       int
 	old     map[string]bool // printed texts of the function literals that existed before inlining
 	changed int
+	consumed map[*ast.FuncLit]bool // literals whose body was spliced into the enclosing function
 	// breakable context of the statement being processed
 	brk []*brkCtx
 }
@@ -98,8 +99,22 @@ func deliteralize(name string, src []byte, old map[string]bool) ([]byte, int) {
 		if !ok || fd.Body == nil {
 			continue
 		}
-		d := &delit{fset: fset, old: old, n: base + total*100}
+		d := &delit{fset: fset, old: old, n: base + total*100, consumed: map[*ast.FuncLit]bool{}}
+		// ordinary closures of the function are processed too (each with its own break context)
+		var lits []*ast.FuncLit
+		ast.Inspect(fd.Body, func(n ast.Node) bool {
+			if fl, ok := n.(*ast.FuncLit); ok {
+				lits = append(lits, fl)
+			}
+			return true
+		})
 		fd.Body.List = d.stmts(fd.Body.List)
+		for _, fl := range lits {
+			if !d.consumed[fl] {
+				d.brk = nil
+				fl.Body.List = d.stmts(fl.Body.List)
+			}
+		}
 		if d.changed == 0 {
 			continue
 		}
@@ -381,6 +396,7 @@ func namedResults(fl *ast.FuncLit) ([]ast.Stmt, []string) {
 // valueForm expands the literal call into statements that leave its results in fresh temporaries.
 func (d *delit) valueForm(fl *ast.FuncLit, c *ast.CallExpr) (pre []ast.Stmt, temps []ast.Expr, ok bool) {
 	nres := resultCount(fl)
+	d.consumed[fl] = true
 	label := d.fresh("L")
 	var tnames []string
 	if fl.Type.Results != nil {
@@ -471,6 +487,7 @@ func (d *delit) cond(e ast.Expr, t, f string) []ast.Stmt {
 	}
 	fl, c := d.iife(e)
 	d.changed++
+	d.consumed[fl] = true
 	d.renameLabels(fl.Body)
 	ndecls, rnames := namedResults(fl)
 	body := mapReturns(fl.Body, func(r *ast.ReturnStmt) ast.Stmt {
@@ -571,82 +588,79 @@ func (d *delit) relabelBreaks(list []ast.Stmt) bool {
 	return okAll
 }
 
-// firstCall finds the first call evaluated in *e (Go evaluates calls in lexical left-to-right order; operands of
-// && and || after the first are conditional).  It returns the expression slot holding it if that call is a
-// transformable single-result literal call; stop reports that some other call (or a conditional operand) comes
-// first, so nothing later may be hoisted in front of it.
-func (d *delit) firstCall(e *ast.Expr) (slot *ast.Expr, stop bool) {
+// callsInOrder appends to *out the slots of the calls evaluated by *e, in evaluation order (Go evaluates
+// function calls, method calls and conversions' operands in lexical left-to-right order; a call's function and
+// argument expressions are evaluated before the call itself).  It returns true (stop) when it meets an operand
+// that is only conditionally evaluated (right side of && / ||) and contains a call, or a channel receive:
+// nothing after that point may be moved in front of the statement.  soleArg marks calls that are the only
+// argument of another call (they may be multi-valued and cannot be bound to one temporary).
+func (d *delit) callsInOrder(e *ast.Expr, out *[]*ast.Expr, soleArg map[*ast.Expr]bool) (stop bool) {
 	switch t := (*e).(type) {
 	case nil:
-		return nil, false
+		return false
 	case *ast.ParenExpr:
-		return d.firstCall(&t.X)
+		return d.callsInOrder(&t.X, out, soleArg)
 	case *ast.SelectorExpr:
-		return d.firstCall(&t.X)
+		return d.callsInOrder(&t.X, out, soleArg)
 	case *ast.StarExpr:
-		return d.firstCall(&t.X)
+		return d.callsInOrder(&t.X, out, soleArg)
 	case *ast.UnaryExpr:
 		if t.Op == token.ARROW {
-			return nil, true
+			return true
 		}
-		return d.firstCall(&t.X)
+		return d.callsInOrder(&t.X, out, soleArg)
 	case *ast.TypeAssertExpr:
-		return d.firstCall(&t.X)
+		return d.callsInOrder(&t.X, out, soleArg)
 	case *ast.IndexExpr:
-		if s, st := d.firstCall(&t.X); s != nil || st {
-			return s, st
-		}
-		return d.firstCall(&t.Index)
+		return d.callsInOrder(&t.X, out, soleArg) || d.callsInOrder(&t.Index, out, soleArg)
 	case *ast.SliceExpr:
-		for _, x := range []*ast.Expr{&t.X, &t.Low, &t.High, &t.Max} {
-			if s, st := d.firstCall(x); s != nil || st {
-				return s, st
-			}
-		}
-		return nil, false
+		return d.callsInOrder(&t.X, out, soleArg) || d.callsInOrder(&t.Low, out, soleArg) || d.callsInOrder(&t.High, out, soleArg) || d.callsInOrder(&t.Max, out, soleArg)
 	case *ast.BinaryExpr:
-		if s, st := d.firstCall(&t.X); s != nil || st {
-			return s, st
+		if d.callsInOrder(&t.X, out, soleArg) {
+			return true
 		}
 		if t.Op == token.LAND || t.Op == token.LOR {
-			if containsCall(t.Y) {
-				return nil, true
-			}
-			return nil, false
+			return containsCall(t.Y)
 		}
-		return d.firstCall(&t.Y)
+		return d.callsInOrder(&t.Y, out, soleArg)
 	case *ast.KeyValueExpr:
-		if s, st := d.firstCall(&t.Key); s != nil || st {
-			return s, st
+		if _, isIdent := t.Key.(*ast.Ident); !isIdent {
+			if d.callsInOrder(&t.Key, out, soleArg) {
+				return true
+			}
 		}
-		return d.firstCall(&t.Value)
+		return d.callsInOrder(&t.Value, out, soleArg)
 	case *ast.CompositeLit:
 		for i := range t.Elts {
-			if s, st := d.firstCall(&t.Elts[i]); s != nil || st {
-				return s, st
+			if d.callsInOrder(&t.Elts[i], out, soleArg) {
+				return true
 			}
 		}
-		return nil, false
+		return false
 	case *ast.CallExpr:
 		if fl, _ := d.iife(t); fl != nil {
-			if resultCount(fl) == 1 {
-				return e, false
-			}
-			return nil, true
+			*out = append(*out, e)
+			return false
 		}
 		if _, isLit := ast.Unparen(t.Fun).(*ast.FuncLit); !isLit {
-			if s, st := d.firstCall(&t.Fun); s != nil || st {
-				return s, st
+			if d.callsInOrder(&t.Fun, out, soleArg) {
+				return true
 			}
 		}
 		for i := range t.Args {
-			if s, st := d.firstCall(&t.Args[i]); s != nil || st {
-				return s, st
+			if len(t.Args) == 1 {
+				if _, isCall := ast.Unparen(t.Args[i]).(*ast.CallExpr); isCall {
+					soleArg[&t.Args[i]] = true
+				}
+			}
+			if d.callsInOrder(&t.Args[i], out, soleArg) {
+				return true
 			}
 		}
-		return nil, true // this call itself comes first
+		*out = append(*out, e)
+		return false
 	}
-	return nil, false
+	return false
 }
 
 func containsCall(e ast.Expr) bool {
@@ -667,23 +681,41 @@ func containsCall(e ast.Expr) bool {
 	return found
 }
 
-// hoistFirst repeatedly moves the first-evaluated literal call of the given expression slots (in evaluation
-// order) in front of the statement, replacing it by a temporary.
+// hoistFirst moves the new literal calls of the given expression slots (listed in evaluation order) in front of
+// the statement, replacing each by a temporary.  Calls evaluated before such a literal call are moved too (each
+// bound to a temporary, in order), so the order of all calls is exactly the original one.
 func (d *delit) hoistFirst(slots []*ast.Expr) (pre []ast.Stmt) {
 	for iter := 0; iter < 8; iter++ {
-		var slot *ast.Expr
+		var calls []*ast.Expr
+		soleArg := map[*ast.Expr]bool{}
 		for _, e := range slots {
-			s, st := d.firstCall(e)
-			if s != nil {
-				slot = s
-			}
-			if s != nil || st {
+			if d.callsInOrder(e, &calls, soleArg) {
 				break
 			}
 		}
-		if slot == nil {
+		k := -1
+		for i, c := range calls {
+			if fl, _ := d.iife(*c); fl != nil && resultCount(fl) == 1 && !soleArg[c] {
+				k = i
+				break
+			}
+		}
+		if k < 0 {
 			return pre
 		}
+		// everything evaluated before it must be bindable to a temporary
+		for _, c := range calls[:k] {
+			if fl, _ := d.iife(*c); fl != nil || soleArg[c] || !bindable(*c) {
+				return pre
+			}
+		}
+		for _, c := range calls[:k] {
+			tn := d.fresh("H")
+			pre = append(pre, &ast.AssignStmt{Lhs: []ast.Expr{ident(tn)}, Tok: token.DEFINE, Rhs: []ast.Expr{*c}},
+				&ast.AssignStmt{Lhs: []ast.Expr{ident("_")}, Tok: token.ASSIGN, Rhs: []ast.Expr{ident(tn)}})
+			*c = ident(tn)
+		}
+		slot := calls[k]
 		fl, c := d.iife(*slot)
 		p, temps, ok := d.valueForm(fl, c)
 		if !ok || len(temps) != 1 {
@@ -694,6 +726,21 @@ func (d *delit) hoistFirst(slots []*ast.Expr) (pre []ast.Stmt) {
 		*slot = temps[0]
 	}
 	return pre
+}
+
+// bindable: a call whose single result can be given to `tmp := call` (not a void builtin).
+func bindable(e ast.Expr) bool {
+	c, ok := ast.Unparen(e).(*ast.CallExpr)
+	if !ok {
+		return false
+	}
+	if id, ok := c.Fun.(*ast.Ident); ok {
+		switch id.Name {
+		case "panic", "delete", "close", "print", "println", "clear":
+			return false
+		}
+	}
+	return true
 }
 
 func exprSlots(xs []ast.Expr) []*ast.Expr {
